@@ -43,7 +43,10 @@ def bounded(pb, interp, rng, tier):
     for N in range(top):
         check(N)
     below = [s for s in S if s < 2 ** 62]
-    pick = below if tier == "thorough" else rng.sample(below, 3000)
+    # always: the neighbours of every power of two (where a float logarithm is exact and a bound computed from
+    # it is tight) and of the 1500 largest 7-smooth numbers below 2^62; plus, in the quick tier, a seeded sample of the rest
+    always = [s for s in below if (s & (s - 1)) == 0] + below[-1500:]
+    pick = below if tier == "thorough" else sorted(set(always) | set(rng.sample(below, 3000)))
     for s in pick:
         for N in (s - 1, s, s + 1):
             if N >= 0:
